@@ -174,6 +174,20 @@ def fresh_prefix_runs(fresh, settings, triples):
     return total, bad
 
 
+def empty_set_indices(vals):
+    def has(v, depth=0):
+        if depth > 6:
+            return False
+        if isinstance(v, (set, frozenset)):
+            return len(v) == 0
+        if isinstance(v, dict):
+            return any(has(x, depth + 1) for x in v.values())
+        if isinstance(v, (list, tuple)):
+            return any(has(x, depth + 1) for x in v)
+        return False
+    return [i for i, v in enumerate(vals) if has(v)]
+
+
 def mixed_key_indices(vals):
     """corpus entries holding a dict whose keys are of several types (not orderable among each other): always part of the runs with
     sort_dict_keys=True"""
@@ -201,13 +215,13 @@ def purity_section(tier, seed):
     import corpus_values
     rng = random.Random(seed * 37 + 6)
     vals = corpus_values.corpus()
-    settings_list = [{}, {'width': 20}, {'width': 40, 'sort_dict_keys': True}, {'max_seq_len': 2}] if tier == 'quick' else \
+    settings_list = [{}, {'width': 20}, {'width': 40, 'sort_dict_keys': True}, {'max_seq_len': 2}, {'depth': 1}] if tier == 'quick' else \
         [{}, {'width': 20}, {'width': 40, 'sort_dict_keys': True}, {'width': 10, 'indent': 2}, {'depth': 2}, {'max_seq_len': 3}]
     mism, fails = [], []
     tot = nt = 0
     idx = list(range(len(vals)))
     for st in settings_list:
-        chosen = idx if tier == 'thorough' or st == {} else sorted(set(rng.sample(idx, 16)) | set(mixed_key_indices(vals)))
+        chosen = idx if tier == 'thorough' or st == {} else sorted(set(rng.sample(idx, 16)) | set(mixed_key_indices(vals)) | set(empty_set_indices(vals)))
         fresh = fresh_outputs(chosen, st)
         if st == {} or tier == 'thorough':
             # first-print effects: every ordered pair from a state in which nothing has been printed yet (in-process permutations
